@@ -842,6 +842,27 @@ def judge_scalar_literals(ctx):
                 ctx.violation(f'number-literal/{number_form(sp)}-{name}', f'{text!r} -> {show(got[1])}; '
                               f'the literal denotes {w!r}; python_code={got[2]!r}',
                               {'kind': 'number', 'spelling': sp})
+    # literals of more than 15 digits denote their value like any other (a whole number stays that whole number)
+    for sp in ('9007199254740993', '12345678901234567890', '100000000000000001', '99999999999999999999999'):
+        for name, text, w in (('plain', f'={sp}', int(sp)), ('difference', f'={sp}-{int(sp) - 1}', 1),
+                              ('text', f'={sp}&""', sp), ('compared', f'={sp}={int(sp) - 1}', False)):
+            got = cr.run(text, {})
+            ctx.count('number-literal')
+            ctx.count('number-literal-of-more-than-15-digits')
+            ctx.case(None)
+            if got[0] != 'v' or type(got[1]) is not type(w) or got[1] != w:
+                ctx.violation(f'number-literal/long-integer-{name}', f'{text!r} -> {show(got[1])}; the literal denotes '
+                              f'{int(sp)!r}, so the formula gives {w!r}; python_code={got[2]!r}',
+                              {'kind': 'number', 'spelling': sp})
+    # a negative number literal (in parentheses, or under the prefix minus that binds tighter than ^) raised to a
+    # literal power that is not whole has no real value: an error value, never another type
+    for text in ('=(-8)^0.5', '=-8^0.5', '=(-8)^(1/2)', '=(2-10)^0.5', '=(-2.5)^1.5', '=-4^-0.5', '=(-8)^0.25&""', '=((-8)^0.5)=1'):
+        got = cr.run(text, {})
+        ctx.count('negative-literal-to-a-fractional-power')
+        ctx.case(None)
+        if got[0] != 'v' or got[1] not in ('#NUM!', '#DIV/0!', '#VALUE!'):
+            ctx.violation('power/negative-literal-base-fractional-exponent', f'{text!r} -> {show(got[1])}; expected an error '
+                          f'value (#NUM!); python_code={got[2]!r}', {'kind': 'formula', 'formula': text, 'want': '#NUM!'})
     for text, want in (('=TRUE', True), ('=FALSE', False), ('=IF(TRUE,TRUE,FALSE)', True),
                        ('=IF(FALSE,TRUE,FALSE)', False), ('=TRUE&FALSE', 'TRUEFALSE')):
         got = cr.run(text, {})
